@@ -22,6 +22,10 @@ pub struct SCol {
     /// bare output name (used to re-qualify under a derived-table alias)
     pub name: String,
     pub nullable: bool,
+    /// NULLs may arise from computation (outer join, expression, NULL literal) — not removable by the `nonull` data neutraliser
+    pub ncomp: bool,
+    /// ordinal of the FROM item the column comes from (join keys of a later join are drawn from ONE earlier item unless `multi_rel_key`)
+    pub rel: usize,
     /// bound on magnitude + fraction bits of the values (None: not usable in arithmetic / SUM / AVG)
     pub bits: Option<u32>,
     pub special: bool,
@@ -108,13 +112,13 @@ impl<'a> Gen<'a> {
         tb.cols.iter().enumerate().map(|(ci, c)| {
             let mut samples: Vec<Val> = vec![];
             for row in tb.rows.iter().take(40) { let v = &row[ci]; if !v.is_null() && !samples.contains(v) { samples.push(v.clone()); if samples.len() >= 6 { break; } } }
-            SCol { ty: c.cty.ty(), sql: format!("{}.{}", alias, c.name), name: c.name.clone(), nullable: c.null_pct > 0,
+            SCol { ty: c.cty.ty(), sql: format!("{}.{}", alias, c.name), name: c.name.clone(), nullable: c.null_pct > 0, ncomp: false, rel: 0,
                    bits: if c.boundary || c.special || !c.cty.ty().numeric() { None } else if c.unique { Some(12) } else { Some(6) },
                    special: c.special, narrow: c.cty == super::ColTy::I32, derived: false, samples }
         }).collect()
     }
     fn requalify(out: &Scope, alias: &str) -> Scope {
-        out.iter().map(|c| SCol { sql: format!("{}.{}", alias, c.name), derived: true, ..c.clone() }).collect()
+        out.iter().map(|c| SCol { sql: format!("{}.{}", alias, c.name), derived: true, rel: 0, ..c.clone() }).collect()
     }
 
     // ------------------------------------------------------------ literals and scalars
@@ -439,11 +443,14 @@ impl<'a> Gen<'a> {
             if self.on("cross_join") { jts.push(JoinType::Cross); }
             let jt = *self.r.pick(&jts);
             let lw = sc.len(); let rw = sc2.len();
+            let nrel = sc.iter().map(|c| c.rel).max().unwrap_or(0) + 1;
+            let sc2: Scope = sc2.into_iter().map(|c| SCol { rel: nrel, ..c }).collect();
+            let key_rel = self.r.below(nrel as u64) as usize;
             let mut both = sc.clone(); both.extend(sc2.iter().cloned());
             let on = if jt == JoinType::Cross { None } else {
                 let mut conj = vec![];
                 let mut pairs = vec![];
-                for (i, a) in sc.iter().enumerate() { for (j, b) in sc2.iter().enumerate() { if a.ty == b.ty && a.ty != Ty::Bool && a.ty != Ty::F64 && self.same_width(a, b) { pairs.push((i, lw + j)); } } }
+                for (i, a) in sc.iter().enumerate() { for (j, b) in sc2.iter().enumerate() { if a.ty == b.ty && a.ty != Ty::Bool && a.ty != Ty::F64 && self.same_width(a, b) && (a.rel == key_rel || self.on("multi_rel_key")) { pairs.push((i, lw + j)); } } }
                 let nk = if pairs.is_empty() { 0 } else { 1 + self.r.below(2) as usize };
                 for _ in 0..nk { let (i, j) = *self.r.pick(&pairs); conj.push(Expr::bin(BinOp::Eq, Self::col_ref(&both, i), Self::col_ref(&both, j))); }
                 if conj.is_empty() || self.maybe("join_residual", 1, 3) { conj.push(self.pred(&both, 0)); }
@@ -453,9 +460,9 @@ impl<'a> Gen<'a> {
             rel = Rel::Join { jt, l: Box::new(rel), r: Box::new(r2), lw, rw, on };
             sc = match jt {
                 JoinType::Semi | JoinType::Anti => sc,
-                JoinType::Left => { let mut s = sc; s.extend(sc2.into_iter().map(|c| SCol { nullable: true, ..c })); s }
-                JoinType::Right => { let mut s: Scope = sc.into_iter().map(|c| SCol { nullable: true, ..c }).collect(); s.extend(sc2); s }
-                JoinType::Full => both.into_iter().map(|c| SCol { nullable: true, ..c }).collect(),
+                JoinType::Left => { let mut s = sc; s.extend(sc2.into_iter().map(|c| SCol { nullable: true, ncomp: true, ..c })); s }
+                JoinType::Right => { let mut s: Scope = sc.into_iter().map(|c| SCol { nullable: true, ncomp: true, ..c }).collect(); s.extend(sc2); s }
+                JoinType::Full => both.into_iter().map(|c| SCol { nullable: true, ncomp: true, ..c }).collect(),
                 _ => both,
             };
         }
@@ -475,13 +482,21 @@ impl<'a> Gen<'a> {
             }).collect();
             rows.push(row);
         }
-        let out: Scope = tys.iter().enumerate().map(|(i, &ty)| SCol { ty, sql: format!("column{}", i), name: format!("column{}", i), nullable: rows.iter().any(|r: &Vec<Expr>| matches!(r[i], Expr::Lit(Val::Null, _))), bits: if ty.numeric() { Some(5) } else { None }, special: false, narrow: false, derived: false, samples: vec![] }).collect();
+        let out: Scope = tys.iter().enumerate().map(|(i, &ty)| SCol { ty, sql: format!("column{}", i), name: format!("column{}", i), nullable: rows.iter().any(|r: &Vec<Expr>| matches!(r[i], Expr::Lit(Val::Null, _))), ncomp: rows.iter().any(|r: &Vec<Expr>| matches!(r[i], Expr::Lit(Val::Null, _))), bits: if ty.numeric() { Some(5) } else { None }, special: false, narrow: false, derived: false, rel: 0, samples: vec![] }).collect();
         self.tag("values");
         (QueryExpr::of(Body::Values(rows)), out)
     }
 
     // ------------------------------------------------------------ SELECT blocks
     fn agg_call(&mut self, sc: &Scope, keyed: bool) -> (AggCall, Ty, Option<u32>) {
+        let (c, ty, bits) = self.agg_call_inner(sc, keyed);
+        // accumulator inputs that are NULL by computation (outer join, NULL literal …): feature `computed_null_key`
+        let mut comp = false;
+        if let Some(a) = &c.arg { a.visit(&mut |e| if let Expr::Col { i, .. } = e { if sc[*i].ncomp { comp = true; } }); }
+        if comp && !self.on("computed_null_key") { return (AggCall { f: AggFn::CountStar, arg: None, distinct: false }, Ty::Int, Some(12)); }
+        (c, ty, bits)
+    }
+    fn agg_call_inner(&mut self, sc: &Scope, keyed: bool) -> (AggCall, Ty, Option<u32>) {
         let k = self.r.below(10);
         if k < 2 || sc.is_empty() { return (AggCall { f: AggFn::CountStar, arg: None, distinct: false }, Ty::Int, Some(12)); }
         let distinct = self.on("agg_distinct") && self.r.chance(1, 5);
@@ -506,7 +521,7 @@ impl<'a> Gen<'a> {
         let ty = *self.r.pick(&tys);
         let cols = self.cols_of(sc, ty); let i = *self.r.pick(&cols);
         // MIN / MAX of a string group without a non-NULL value comes out as '' in the engine: feature `null_str_minmax`
-        if ty == Ty::Str && sc[i].nullable && !self.on("null_str_minmax") { return (AggCall { f: AggFn::Count, arg: Some(Self::col_ref(sc, i)), distinct: false }, Ty::Int, Some(12)); }
+        if ty == Ty::Str && sc[i].nullable && (!self.on("null_str_minmax") || (sc[i].ncomp && !self.on("computed_null_key"))) { return (AggCall { f: AggFn::Count, arg: Some(Self::col_ref(sc, i)), distinct: false }, Ty::Int, Some(12)); }
         self.tag("minmax");
         let arg = self.wide_ref(sc, i);
         (AggCall { f: if self.r.chance(1, 2) { AggFn::Min } else { AggFn::Max }, arg: Some(arg), distinct: false }, ty, sc[i].bits)
@@ -536,7 +551,7 @@ impl<'a> Gen<'a> {
             let mut keys = vec![]; let mut post: Scope = vec![];
             // composite keys / grouping sets with real NULL keys lose groups in the engine (A.21): feature `null_multi_key`
             let strict_null = (gs || nk >= 2) && !self.on("null_multi_key");
-            let keyable: Vec<usize> = sc.iter().enumerate().filter(|(_, c)| !(strict_null && c.nullable)).filter(|(_, c)| (c.ty != Ty::F64 || self.on("float_key")) && (c.ty != Ty::Bool || self.on("bool_key")) && (!(c.ty == Ty::Int && c.nullable) || self.on("null_int_key"))).map(|(i, _)| i).collect();
+            let keyable: Vec<usize> = sc.iter().enumerate().filter(|(_, c)| !(strict_null && c.nullable) && !(c.ncomp && !self.on("computed_null_key"))).filter(|(_, c)| (c.ty != Ty::F64 || self.on("float_key")) && (c.ty != Ty::Bool || self.on("bool_key")) && (!(c.ty == Ty::Int && c.nullable) || self.on("null_int_key")) && (!c.ncomp || self.on("computed_null_key"))).map(|(i, _)| i).collect();
             for _ in 0..nk {
                 if keyable.is_empty() { break; }
                 let i = *self.r.pick(&keyable);
@@ -556,7 +571,7 @@ impl<'a> Gen<'a> {
             for _ in 0..na {
                 let (c, ty, bits) = self.agg_call(&sc, !keys.is_empty());
                 if gs && aggs.iter().any(|a: &AggCall| a.sql() == c.sql()) { continue; }
-                post.push(SCol { ty, sql: c.sql(), name: String::new(), nullable: !matches!(c.f, AggFn::Count | AggFn::CountStar), bits, special: false, narrow: false, derived: false, samples: vec![] });
+                post.push(SCol { ty, sql: c.sql(), name: String::new(), nullable: !matches!(c.f, AggFn::Count | AggFn::CountStar), ncomp: !matches!(c.f, AggFn::Count | AggFn::CountStar), bits, special: false, narrow: false, derived: false, rel: 0, samples: vec![] });
                 aggs.push(c);
             }
             let sets = if gs {
@@ -575,7 +590,7 @@ impl<'a> Gen<'a> {
                 };
                 self.tag(match kind { GsKind::Rollup => "rollup", GsKind::Cube => "cube", GsKind::Sets => "grouping_sets" });
                 let all: Vec<String> = keys.iter().map(|k| k.sql()).collect();
-                post.push(SCol { ty: Ty::Int, sql: format!("GROUPING({})", all.join(", ")), name: String::new(), nullable: false, bits: Some(4), special: false, narrow: false, derived: false, samples: vec![] });
+                post.push(SCol { ty: Ty::Int, sql: format!("GROUPING({})", all.join(", ")), name: String::new(), nullable: false, ncomp: false, bits: Some(4), special: false, narrow: false, derived: false, rel: 0, samples: vec![] });
                 // keys absent from a set come out NULL
                 for c in post.iter_mut().take(n) { c.nullable = true; }
                 Some((kind, sets))
@@ -595,7 +610,7 @@ impl<'a> Gen<'a> {
                 o.push(SCol { sql: al.clone(), name: al.clone(), bits, samples: vec![], ..post[i].clone() });
                 proj.push((e, al));
             }
-            if proj.is_empty() { let al = self.alias(); proj.push((Expr::lit_i(1), al.clone())); o.push(SCol { ty: Ty::Int, sql: al.clone(), name: al, nullable: false, bits: Some(1), special: false, narrow: false, derived: false, samples: vec![] }); }
+            if proj.is_empty() { let al = self.alias(); proj.push((Expr::lit_i(1), al.clone())); o.push(SCol { ty: Ty::Int, sql: al.clone(), name: al, nullable: false, ncomp: false, bits: Some(1), special: false, narrow: false, derived: false, rel: 0, samples: vec![] }); }
             sel = Select { from: Some(from), where_, group: Some(Group { keys, aggs, sets }), having, proj, distinct: false };
             out = o;
         } else {
@@ -605,17 +620,17 @@ impl<'a> Gen<'a> {
             let mut proj = vec![]; let mut o: Scope = vec![];
             let exprs = primary == "case" || self.on("case") && self.r.chance(1, 4);
             // DISTINCT groups by every output column: no BOOLEAN / DOUBLE keys unless allowed
-            let usable_probe = (0..sc.len()).any(|i| (sc[i].ty != Ty::Bool || self.on("bool_key")) && (sc[i].ty != Ty::F64 || self.on("float_key")) && (!sc[i].nullable || self.on("null_distinct")));
+            let usable_probe = (0..sc.len()).any(|i| (sc[i].ty != Ty::Bool || self.on("bool_key")) && (sc[i].ty != Ty::F64 || self.on("float_key")) && (!sc[i].nullable || (self.on("null_distinct") && (!sc[i].ncomp || self.on("computed_null_key")))));
             let distinct = distinct && usable_probe;
             if distinct { self.tag("distinct"); }
-            let usable: Vec<usize> = (0..sc.len()).filter(|&i| !distinct || ((sc[i].ty != Ty::Bool || self.on("bool_key")) && (sc[i].ty != Ty::F64 || self.on("float_key")) && (!sc[i].nullable || self.on("null_distinct")))).collect();
+            let usable: Vec<usize> = (0..sc.len()).filter(|&i| !distinct || ((sc[i].ty != Ty::Bool || self.on("bool_key")) && (sc[i].ty != Ty::F64 || self.on("float_key")) && (!sc[i].nullable || (self.on("null_distinct") && (!sc[i].ncomp || self.on("computed_null_key")))))).collect();
             for _ in 0..n {
                 let al = self.alias();
-                if usable.is_empty() || (exprs && (!distinct || self.on("null_distinct")) && self.r.chance(1, 2)) {
+                if usable.is_empty() || (exprs && (!distinct || (self.on("null_distinct") && self.on("computed_null_key"))) && self.r.chance(1, 2)) {
                     let tys: Vec<Ty> = usable.iter().map(|&i| sc[i].ty).collect();
                     let ty = if tys.is_empty() { Ty::Int } else { *self.r.pick(&tys) };
                     let (e, bits) = self.scalar(&sc, ty, self.o.max_depth.min(2));
-                    o.push(SCol { ty, sql: al.clone(), name: al.clone(), nullable: true, bits, special: false, narrow: false, derived: false, samples: vec![] });
+                    o.push(SCol { ty, sql: al.clone(), name: al.clone(), nullable: true, ncomp: true, bits, special: false, narrow: false, derived: false, rel: 0, samples: vec![] });
                     proj.push((e, al));
                 } else {
                     let i = *self.r.pick(&usable);
@@ -629,7 +644,7 @@ impl<'a> Gen<'a> {
         }
         if primary == "subquery" && self.on("scalar_select") && self.r.chance(1, 4) {
             // correlated scalar subquery in the SELECT list
-            if let Some((e, ty)) = self.scalar_select_item(&sel) { let al = self.alias(); sel.proj.push((e, al.clone())); let mut o2 = out.clone(); o2.push(SCol { ty, sql: al.clone(), name: al, nullable: true, bits: None, special: false, narrow: false, derived: false, samples: vec![] }); return self.finish_block(sel, o2, primary, top); }
+            if let Some((e, ty)) = self.scalar_select_item(&sel) { let al = self.alias(); sel.proj.push((e, al.clone())); let mut o2 = out.clone(); o2.push(SCol { ty, sql: al.clone(), name: al, nullable: true, ncomp: true, bits: None, special: false, narrow: false, derived: false, rel: 0, samples: vec![] }); return self.finish_block(sel, o2, primary, top); }
         }
         self.finish_block(sel, out, primary, top)
     }
@@ -718,7 +733,7 @@ impl<'a> Gen<'a> {
         for _ in 0..n {
             let i = *self.r.pick(&usable);
             let al = self.alias();
-            out.push(SCol { sql: al.clone(), name: al.clone(), nullable: true, samples: vec![], narrow: sc[i].narrow && self.on("mixed_width"), ..sc[i].clone() });
+            out.push(SCol { sql: al.clone(), name: al.clone(), nullable: true, ncomp: sc[i].ncomp, samples: vec![], narrow: sc[i].narrow && self.on("mixed_width"), ..sc[i].clone() });
             let e = self.wide_ref(&sc, i);
             proj.push((e, al));
         }
